@@ -840,6 +840,71 @@ def run_history(seed, scratch: Path, rep: Report, *, nops, weights, checks, conc
                 segments.append([world.model_store(), [], []])
                 ops_model, observed = segments[-1][1], segments[-1][2]
                 continue
+            elif kind == 'vanish':
+                # a source file disappears while the command reads the stream (a lock file, a rotated log): the command may fail - then
+                # nothing new is listed - but whatever it publishes must restore, without an error, to contents that were captured
+                for _try in range(6):
+                    src_dir, files = world.make_files(user['name'])
+                    if len(files) >= 2:
+                        break
+                dry = MemBackend()
+                dry.objects = dict(world.backend.objects)
+                _, locs = await cmd(world.snapshot(user, src_dir, files, backend=dry, record=False), 'snapshot')
+                world.orphans.update(locs)
+                import replicat.repository as _RR
+                orig_rm, fired_ = _RR.Repository.read_metadata, []
+                paths_ = sorted(Path(p_) for p_ in files)
+
+                def vanishing(self_, file, _fired=fired_, _paths=paths_, _orig=orig_rm):
+                    if not _fired:
+                        _fired.append(1)
+                        last = None
+                        for v in _paths:
+                            try:
+                                if os.fstat(file).st_ino != v.stat().st_ino:
+                                    last = v
+                            except OSError:
+                                pass
+                        if last is not None:
+                            try:
+                                last.unlink()
+                            except OSError:
+                                pass
+                    return _orig(self_, file)
+                snaps_before = {n for n in world.backend.objects if n.startswith('snapshots/')}
+                _RR.Repository.read_metadata = vanishing
+                try:
+                    await asyncio.wait_for(world.snapshot(user, src_dir, files, record=False, fresh=True), 60)
+                    done_ = 'completed'
+                except BaseException:
+                    done_ = 'failed'
+                finally:
+                    _RR.Repository.read_metadata = orig_rm
+                descr.append(['snapshot-with-vanishing-source', user['name'], done_])
+                published = sorted({n for n in world.backend.objects if n.startswith('snapshots/')} - snaps_before)
+                for loc in published:
+                    rr_ = await world.unlocked(user, fresh=True)
+                    out_ = world.scratch / f'vanish-{world.nfiles}'
+                    world.nfiles += 1
+                    out_.mkdir()
+                    try:
+                        await rr_.restore(snapshot_regex='^' + rr_.parse_snapshot_location(loc).name + '$', path=out_)
+                        for path_, content_ in files.items():
+                            t_ = Path(out_, *Path(path_).parts[1:])
+                            if t_.is_file() and t_.read_bytes() != content_:
+                                viol('restore_mismatch', f'a snapshot published by a command during which a source file vanished (the command {done_}) restores a file to other '
+                                                         'contents than it had')
+                                break
+                    except Exception as e:
+                        viol('restore_mismatch', f'a snapshot published by a command during which a source file vanished (the command {done_}) is listed but cannot be '
+                                                 f'restored: {type(e).__name__}: {str(e)[:100]}')
+                    finally:
+                        shutil.rmtree(out_, ignore_errors=True)
+                if published:
+                    raise Abort()          # the harness's ground truth does not know that snapshot: the history ends here
+                segments.append([world.model_store(), [], []])
+                ops_model, observed = segments[-1][1], segments[-1][2]
+                continue
             # ---- observe
             ch, sn, foreign = world.lift()
             observed.append((sorted(ch), sorted(sn), True if kind != 'delete_foreign' else False))
